@@ -251,32 +251,35 @@ def run_replay(args, timeout=1200):
 # Kani
 
 
-def kani_run(harness, timeout=900, extra=None):
+def kani_group(harnesses, timeout=1200, jobs=8):
+    """run a group of harnesses of the kani/ crate in one cargo-kani invocation; returns (per-harness status, info)"""
     kdir = os.path.join(VERIF, "kani")
     lock = os.path.join(kdir, "Cargo.lock")
     if not os.path.exists(lock):
         open(lock, "w").write(open(os.path.join(REPO, "Cargo.lock")).read())
     env = {"RUSTFLAGS": "--cfg %s" % GUARD, "CARGO_TARGET_DIR": os.path.join(BUILD, "kani-target")}
-    cmd = ["cargo", "kani", "--harness", harness, "--exact", "-Z", "function-contracts", "-Z", "stubbing"] + (extra or [])
+    cmd = ["cargo", "kani", "-j", str(jobs), "--output-format", "terse"]
+    for h in harnesses:
+        cmd += ["--harness", h]
     rc, o, e, w = sh(cmd, cwd=kdir, env=env, timeout=timeout)
     txt = o + "\n" + e
-    status = "unknown"
-    if rc == 124:
-        status = "timeout"
-    elif "VERIFICATION:- SUCCESSFUL" in txt:
-        status = "success"
-    elif "VERIFICATION:- FAILED" in txt:
-        status = "failed"
-    else:
-        status = "error"
-    checks = re.search(r"\*\* (\d+) of (\d+) failed", txt)
-    failed_checks = re.findall(r"Failed Checks: (.*)", txt)
-    rt = re.search(r"Runtime decision procedure: ([0-9.]+)s", txt)
-    vt = re.search(r"Verification Time: ([0-9.]+)s", txt)
-    return {"harness": harness, "status": status, "wall_s": w, "n_checks": int(checks.group(2)) if checks else None,
-            "n_failed": int(checks.group(1)) if checks else None, "failed_checks": failed_checks[:10],
-            "decision_s": float(rt.group(1)) if rt else None, "verification_s": float(vt.group(1)) if vt else None,
-            "tail": txt[-2500:] if status not in ("success",) else "", "cmd": " ".join(cmd)}
+    failed = set(x.split("::")[-1] for x in re.findall(r"Verification failed for - (\S+)", txt))
+    summ = re.search(r"Complete - (\d+) successfully verified harnesses, (\d+) failures, (\d+) total", txt)
+    checked = set(x.split("::")[-1] for x in re.findall(r"Checking harness (\S+?)\.\.\.", txt))
+    status = {}
+    for h in harnesses:
+        if h in failed:
+            status[h] = "failed"
+        elif summ and int(summ.group(3)) == len(harnesses) and h in checked:
+            status[h] = "success"
+        elif rc == 124:
+            status[h] = "timeout"
+        else:
+            status[h] = "error"
+    times = [float(x) for x in re.findall(r"Verification Time: ([0-9.]+)s", txt)]
+    info = {"cmd": " ".join(cmd), "wall_s": w, "verification_s": sum(times), "tail": txt[-3000:], "rc": rc,
+            "failed_checks": re.findall(r"Failed Checks: (.*)", txt)[:10]}
+    return status, info
 
 
 # ------------------------------------------------------------------------------------------------
@@ -464,41 +467,39 @@ def decide(pid, tier, seed, t0):
                 samples.append("verus:%s::%s (%s:%d-%d)" % (crate, f["id"], f["file"], f["src_line_start"], f["src_line_end"]))
 
     # ---- Kani harnesses ------------------------------------------------------------------------
-    kani_results = []
-    kl = [k for k in P.get("kani", []) if thorough or k.get("quick", True)]
-    if kl:
-        # build once sequentially (first harness), then run the others in parallel
-        first = kani_run(kl[0]["harness"], timeout=kl[0].get("timeout", 900))
-        kani_results.append((kl[0], first))
-        with cf.ThreadPoolExecutor(max_workers=6) as ex:
-            futs = [(k, ex.submit(kani_run, k["harness"], k.get("timeout", 900))) for k in kl[1:]]
-            for k, fu in futs:
-                kani_results.append((k, fu.result()))
     bounded = []
     kani_s = 0.0
-    for k, r in kani_results:
-        kani_s += r.get("decision_s") or 0.0
-        hid = "kani:" + k["harness"]
-        if k.get("complete"):
-            obligations += 1
-            checker_cmds.append(r["cmd"])
-            if r["status"] == "success":
-                discharged += 1
-                samples.append(hid + " (loop-free, full domain: complete)")
-        else:
-            bounded.append({"check": hid, "bound": k.get("bound", "?"), "engine": "kani/cbmc", "result": r["status"], "checks": r["n_checks"], "wall_s": round(r["wall_s"], 1)})
-        if r["status"] == "failed":
-            f = {"id": hid, "fn": k.get("fn"), "tags": [pid], "message": "Kani harness failed: " + "; ".join(r["failed_checks"][:3]),
-                 "rendered": r["tail"], "kind": "kani", "witness": None}
-            hit = [x for x in findings if x["match"] in hid]
-            if hit:
-                known_hits.append((hit[0], f))
+    K = P.get("kani", {})
+    groups = []
+    if K.get("complete"):
+        groups.append(("complete", K["complete"], K.get("complete_timeout", 900)))
+    bl = list(K.get("bounded_quick", [])) + (list(K.get("bounded_thorough", [])) if thorough else [])
+    if bl:
+        groups.append(("bounded", bl, K.get("bounded_timeout", 1500 if thorough else 600)))
+    for gname, hs, to in groups:
+        st, info = kani_group(hs, timeout=to)
+        kani_s += info["verification_s"]
+        checker_cmds.append(info["cmd"])
+        for h in hs:
+            hid = "kani:" + h
+            if gname == "complete":
+                obligations += 1
+                if st[h] == "success":
+                    discharged += 1
+                    if len(samples) < 16:
+                        samples.append(hid + " (loop-free, full-domain symbolic inputs: complete)")
+                elif st[h] in ("timeout", "error"):
+                    inconclusive.append("kani harness %s: %s %s" % (h, st[h], info["tail"][-800:]))
             else:
-                violations.append(f)
-        elif r["status"] in ("timeout", "error"):
-            if k.get("complete"):
-                inconclusive.append("kani harness %s: %s %s" % (k["harness"], r["status"], r["tail"][-600:]))
-            # a bounded harness that times out is recorded, not a verdict
+                bounded.append({"check": hid, "bound": K.get("bound", "see kani/src"), "engine": "kani/cbmc", "result": st[h]})
+            if st[h] == "failed":
+                f = {"id": hid, "fn": h, "tags": [pid], "message": "Kani harness failed: " + "; ".join(info["failed_checks"][:3]),
+                     "rendered": info["tail"], "kind": "kani", "witness": None}
+                hit = [x for x in findings if x["match"] in hid]
+                if hit:
+                    known_hits.append((hit[0], f))
+                else:
+                    violations.append(f)
 
     # ---- bounded enumerations on the real crate (stand-ins, never counted as proved) ------------
     enum_evals = 0
@@ -514,6 +515,8 @@ def decide(pid, tier, seed, t0):
                         "result": "failed" if r.get("failures") else "passed", "evaluations": r.get("evaluations", 0), "wall_s": round(r["wall_s"], 1)})
         known_seen = set()
         for fl in r.get("failures", []):
+            if fl.get("props") and pid not in fl["props"].split(","):
+                continue
             hid = "enum:%s::%s" % (e["name"], fl.get("case", ""))
             hit = [x for x in findings if x["match"] in hid]
             if hit:
